@@ -85,6 +85,7 @@ type retInfo struct {
 	st    *State
 	pos   token.Pos
 	idx   int
+	block *ssa.BasicBlock
 }
 
 type deferred struct {
@@ -115,6 +116,7 @@ type Frame struct {
 	panics  []retInfo // panic exits (abort outcomes)
 	callerF *Frame
 	mods    []modEntry
+	curBlock *ssa.BasicBlock
 	sites   map[*ssa.Function]int
 	siteN   map[string]int
 }
@@ -394,6 +396,9 @@ func (f *Frame) oblige(kind, name string, guard, goal string, clause string, tag
 	}
 	o := &Obligation{Name: name, Kind: kind, Func: f.e.curFunc, Guard: guard, Goal: goal, NDecls: len(f.e.decls), NFacts: len(f.e.facts),
 		Enc: f.e, Clause: clause, Tags: tags}
+	if b := f.curBlock; b != nil && f.callerF == nil {
+		o.Cases = f.casesFor(b, 2)
+	}
 	if pos.IsValid() {
 		o.Pos = f.e.prog.Fset.Position(pos).String()
 	}
@@ -684,6 +689,7 @@ func (f *Frame) execBlock(b *ssa.BasicBlock, st0 *State, g0 string) {
 		}
 	}
 	f.guard[b] = g
+	f.curBlock = b
 	for _, instr := range b.Instrs {
 		if _, ok := instr.(*ssa.Phi); ok {
 			continue
@@ -908,9 +914,9 @@ func (f *Frame) execInstr(b *ssa.BasicBlock, instr ssa.Instruction, st *State, g
 		for _, r := range in.Results {
 			vs = append(vs, f.val(r))
 		}
-		f.rets = append(f.rets, retInfo{guard: g, vals: vs, st: st.clone(), pos: in.Pos(), idx: len(f.rets)})
+		f.rets = append(f.rets, retInfo{guard: g, vals: vs, st: st.clone(), pos: in.Pos(), idx: len(f.rets), block: b})
 	case *ssa.Panic:
-		f.panics = append(f.panics, retInfo{guard: g, st: st.clone(), pos: in.Pos()})
+		f.panics = append(f.panics, retInfo{guard: g, st: st.clone(), pos: in.Pos(), block: b})
 		if e.nopanic {
 			name := fmt.Sprintf("%s:panic[%s]", funcDisplay(f.fn), srcText(e.prog.Fset, in))
 			if f.callerF != nil {
@@ -1125,36 +1131,134 @@ func (f *Frame) convert(in *ssa.Convert, x Val, st *State) string {
 	return ""
 }
 
-// splitAnd splits a top-level (and a b ...) term into its conjuncts (recursively).
+// splitAnd splits a term into conjuncts: top-level (and ...), and conjunctions under
+// (forall (...) ...), (! ... :pattern ...) and on the right of (=> a ...).
 func splitAnd(t string) []string {
-	if !strings.HasPrefix(t, "(and ") {
+	t = strings.TrimSpace(t)
+	parts := topArgs(t)
+	if parts == nil {
 		return []string{t}
 	}
-	body := t[5 : len(t)-1]
-	var parts []string
-	depth := 0
-	start := 0
-	for i := 0; i < len(body); i++ {
-		switch body[i] {
-		case '(':
-			depth++
-		case ')':
-			depth--
-		case ' ':
-			if depth == 0 {
-				if i > start {
-					parts = append(parts, body[start:i])
+	switch parts[0] {
+	case "and":
+		var out []string
+		for _, p := range parts[1:] {
+			out = append(out, splitAnd(p)...)
+		}
+		return out
+	case "=>":
+		if len(parts) == 3 {
+			rs := splitAnd(parts[2])
+			if len(rs) > 1 {
+				var out []string
+				for _, r := range rs {
+					out = append(out, "(=> "+parts[1]+" "+r+")")
 				}
-				start = i + 1
+				return out
+			}
+		}
+	case "forall":
+		if len(parts) == 3 {
+			body := parts[2]
+			bp := topArgs(body)
+			pat := ""
+			inner := body
+			if bp != nil && bp[0] == "!" {
+				inner = bp[1]
+				pat = " " + strings.Join(bp[2:], " ")
+			}
+			rs := splitAnd(inner)
+			if len(rs) > 1 {
+				var out []string
+				for _, r := range rs {
+					if pat != "" {
+						out = append(out, "(forall "+parts[1]+" (! "+r+pat+"))")
+					} else {
+						out = append(out, "(forall "+parts[1]+" "+r+")")
+					}
+				}
+				return out
 			}
 		}
 	}
-	if start < len(body) {
+	return []string{t}
+}
+
+// topArgs parses "(f a b ...)" into [f a b ...]; nil if t is an atom.
+func topArgs(t string) []string {
+	if len(t) < 2 || t[0] != '(' || t[len(t)-1] != ')' {
+		return nil
+	}
+	body := t[1 : len(t)-1]
+	var parts []string
+	depth := 0
+	start := -1
+	for i := 0; i < len(body); i++ {
+		c := body[i]
+		switch {
+		case c == '(':
+			if depth == 0 && start < 0 {
+				start = i
+			}
+			depth++
+		case c == ')':
+			depth--
+			if depth == 0 {
+				parts = append(parts, body[start:i+1])
+				start = -1
+			}
+		case c == ' ' || c == '\n' || c == '\t':
+			if depth == 0 && start >= 0 {
+				parts = append(parts, body[start:i])
+				start = -1
+			}
+		default:
+			if depth == 0 && start < 0 {
+				start = i
+			}
+		}
+	}
+	if start >= 0 {
 		parts = append(parts, body[start:])
 	}
+	return parts
+}
+
+// casesFor: the forward edges into b (recursively through single-predecessor chains, depth levels of joins)
+func (f *Frame) casesFor(b *ssa.BasicBlock, depth int) []string {
+	var edges []string
+	var preds []*ssa.BasicBlock
+	for _, p := range b.Preds {
+		if f.isBackEdge(p, b) {
+			continue
+		}
+		if eg, ok := f.edge[[2]int{p.Index, b.Index}]; ok {
+			edges = append(edges, eg)
+			preds = append(preds, p)
+		}
+	}
+	if len(edges) == 0 {
+		return nil
+	}
+	if len(edges) == 1 {
+		if f.loops[b] != nil {
+			return nil
+		}
+		return f.casesFor(preds[0], depth)
+	}
+	if depth <= 1 {
+		return edges
+	}
 	var out []string
-	for _, p := range parts {
-		out = append(out, splitAnd(p)...)
+	for i, p := range preds {
+		sub := f.casesFor(p, depth-1)
+		if len(sub) == 0 {
+			out = append(out, edges[i])
+			continue
+		}
+		for _, s := range sub {
+			out = append(out, and(edges[i], s))
+		}
 	}
 	return out
 }
